@@ -191,10 +191,11 @@ def c13(chk):
         rng = chk.rng
         k = rng.randrange(2, 5)
         M = rng.randrange(1, 4)
-        ticks = rng.choice([6, 8, 12])
+        ticks = rng.choice([8, 12, 20])
         step = rng.choice([500, 1500])
+        maxb2 = step * rng.choice([1, 3, 6])      # growing backoff: a peer deferred by the cap must keep its failure count
         cmds = ["seed=%d delay=200" % rng.randrange(1 << 30),
-                "node 0 ctick=%d ctimeout=400 backoff=%d maxbackoff=%d maxout=%d idle=600000" % (P, step, step, M)]
+                "node 0 ctick=%d ctimeout=400 backoff=%d maxbackoff=%d maxout=%d idle=600000" % (P, step, maxb2, M)]
         known_m = []
         for j in range(1, k + 1):
             cmds += ["node %d key=%d idle=600000" % (j, 100 + j), "drop %d" % j]
@@ -213,7 +214,7 @@ def c13(chk):
             cmds += ["sleep 100", "trace dial", "peers 0"]
         scen.append("simnet " + " ; ".join(cmds))
         models.append("dialer own=0 step=%d maxb=%d maxout=%d P=%d ticks=%d ext=%s | %s | %s"
-                      % (step, step, M, P, ticks, ",".join("%d:%d" % kv for kv in sorted(ext.items())) or "-", ";".join(known_m),
+                      % (step, maxb2, M, P, ticks, ",".join("%d:%d" % kv for kv in sorted(ext.items())) or "-", ";".join(known_m),
                          " ".join("0:%d:down" % j for j in range(1, k + 1))))
         metas.append(dict(k=k, ticks=ticks, cap=True, maxout=M, known=known_m, ext=ext))
     outs, parsed = run_scenarios(chk, scen, "fabric:dialer")
@@ -941,10 +942,14 @@ def c02(chk):
             link += " loss=%d" % rng.choice([10, 30])
         # in a third of the scenarios both nodes have a frame limit and some responses exceed it: the responder
         # fails after its handler ran (the stream is reset); the caller must get an error, never a second delivery
+        # (the two ends may have different limits, or only one of them a limit at all)
         limit = rng.choice([20000, 100000]) if rng.random() < 0.35 else None
-        mf = " maxframe=%d" % limit if limit else ""
+        lims = {0: limit, 1: limit}
+        if limit and rng.random() < 0.5:
+            lims[rng.choice([0, 1])] = rng.choice([None, 20000, 100000, 2000000])
+        mf = lambda i: " maxframe=%d" % lims[i] if lims[i] else ""
         cmds = ["seed=%d %s" % (rng.randrange(1 << 30), link),
-                "node 0 idle=60000 keepalive=5000" + mf, "node 1 idle=60000 keepalive=5000" + mf, "connect 0 1", "sleep 500"]
+                "node 0 idle=60000 keepalive=5000" + mf(0), "node 1 idle=60000 keepalive=5000" + mf(1), "connect 0 1", "sleep 500"]
         k = rng.choice([1, 4, 16, 64]) if quick else rng.choice([1, 8, 32, 64, 128])
         rpcs = []
         big = 0
@@ -974,14 +979,18 @@ def c02(chk):
             cmds.append("join %s 300000" % rid)
         cmds += ["log 0", "log 1", "peers 0", "trace"]
         scen.append("simnet " + " ; ".join(cmds))
-        metas.append((rpcs, faults, limit))
+        metas.append((rpcs, faults, lims))
     outs, parsed = run_scenarios(chk, scen, "fabric:rpc")
     # trace acceptance: the per-RPC events both ends recorded are replayed on Rpc.v (RpcTrace.erun); runs under
     # datagram loss are left out (a connection may be lost there, which the stream-level model does not contain)
     tc, tmeta = [], []
-    for k, (res, (rpcs, faults, limit)) in enumerate(zip(parsed, metas)):
+    for k, (res, (rpcs, faults, lims)) in enumerate(zip(parsed, metas)):
         if res is None or faults in ("loss", "all"):
             continue
+        if lims[0] != lims[1]:
+            chk.count("rpc-trace-not-modelled: different frame limits at the two ends")
+            continue
+        limit = lims[0]
         byid = dict((rid, (a, b, size, rs)) for rid, a, b, size, rs in rpcs)
         def patterns(rid, kind, byid=byid):
             a, b, size, rs = byid.get(rid, (0, 0, 0, None))
@@ -998,7 +1007,7 @@ def c02(chk):
         chk.evaluations += 1
         chk.count("rpc-trace-events", len(case.split("|")[2].split()))
         rpc_trace_compare(chk, scen[k], case, obs, m)
-    for sc, o, res, (rpcs, faults, limit) in zip(scen, outs, parsed, metas):
+    for sc, o, res, (rpcs, faults, lims) in zip(scen, outs, parsed, metas):
         if res is None:
             continue
         chk.nontriv(sc)
@@ -1021,7 +1030,8 @@ def c02(chk):
                 chk.monitor_fail("RPC %s neither returned nor failed" % rid, dict(case=sc))
             else:
                 # an error is acceptable only under datagram loss, or when the request / response exceeds the frame limit
-                oversize = limit is not None and (size > limit or (rs if rs is not None else size) > limit)
+                lim = min([x for x in lims.values() if x] or [8 << 20])
+                oversize = size > lim or (rs if rs is not None else size) > lim
                 chk.count("rpc-error:" + ("frame-limit" if oversize else "loss"))
                 if faults not in ("loss", "all") and not oversize:
                     chk.monitor_fail("RPC %s failed on a loss-free link: %s" % (rid, out[:100]), dict(case=sc))
